@@ -7,6 +7,7 @@
 //! open <stream#> <kind> <ns hex> <tp hex> <size> -> ok|err:<code>|closed|silent|other:<type>
 //! mid <stream#> <kind> <size> -> sent|fail
 //! probe <ns hex> <tp hex> <ps|rr> -> ok|fail:<text>
+//! mute <kind> <ns hex> <tp hex> -> sent|fail   (zero-window peer asking for a wrong-pattern role, never reading)
 //! oversize -> ok|fail:<text>  (bound replier survives a request that is too large only once tagged)
 //! alive -> ok|fail:<text>
 //! iso -> ok|fail:<text>      (five confusable names used concurrently)
@@ -333,6 +334,27 @@ pub async fn run_case(addr: std::net::SocketAddr, certs: &Certs, seed: u64, i: u
         Ok(()) => "ok".to_string(),
         Err(e) => format!("fail:{}", clean(e)),
     });
+    // a peer that grants the server no credit on its streams asks for a role of the wrong messaging
+    // pattern on an acknowledged topic and never reads the refusal
+    let mute = match acked.first() {
+        Some((ns, tp, pat)) => {
+            let m = RawPeer::connect_with(addr, &certs.client("ca.der"), Some((der(&certs.client("localhost.der")), der(&certs.client("localhost.key.der")))), Some(0)).await;
+            let mut held = vec![];
+            if let Ok(m) = &m {
+                for _ in 0..2 {
+                    if let Ok(mut st) = m.open().await {
+                        let kind = if *pat == "ps" { "regreq" } else { "regsub" };
+                        let sent = tokio::time::timeout(Duration::from_millis(500), st.send(frame_of(kind, ns, tp, 0, &mut r))).await;
+                        let _ = writeln!(out, "mute {} {} {} -> {}", kind, hex(ns.as_bytes()), hex(tp.as_bytes()), if matches!(sent, Ok(Ok(()))) { "sent" } else { "fail" });
+                        held.push(st);
+                    }
+                }
+            }
+            tokio::time::sleep(Duration::from_millis(150)).await;
+            Some((m, held))
+        }
+        None => None,
+    };
     // the raw peer goes away; every acknowledged topic must still serve well-behaved clients
     tokio::time::sleep(Duration::from_millis(150)).await;
     drop(streams);
@@ -340,24 +362,42 @@ pub async fn run_case(addr: std::net::SocketAddr, certs: &Certs, seed: u64, i: u
     tokio::time::sleep(Duration::from_millis(250)).await;
     for (ns, tp, pat) in acked.iter() {
         let topic = format!("/{}/{}", ns, tp);
-        let res = if *pat == "ps" { probe_pubsub(&client, &topic).await } else { probe_reqrep(&client, &topic).await };
+        let res = match tokio::time::timeout(Duration::from_millis(8000), async {
+            if *pat == "ps" {
+                probe_pubsub(&client, &topic).await
+            } else {
+                probe_reqrep(&client, &topic).await
+            }
+        })
+        .await
+        {
+            Ok(r) => r,
+            Err(_) => Err("no_answer_within_8s".to_string()),
+        };
         let _ = writeln!(out, "probe {} {} {} -> {}", hex(ns.as_bytes()), hex(tp.as_bytes()), pat, match res {
             Ok(()) => "ok".to_string(),
             Err(e) => format!("fail:{}", clean(e)),
         });
     }
     let fresh = format!("/alive{}x{}/topic", seed % 100_000, i);
-    let res = probe_pubsub(&client, &fresh).await;
+    let res = match tokio::time::timeout(Duration::from_millis(8000), probe_pubsub(&client, &fresh)).await {
+        Ok(r) => r,
+        Err(_) => Err("no_answer_within_8s".to_string()),
+    };
     let _ = writeln!(out, "alive -> {}", match res {
         Ok(()) => "ok".to_string(),
         Err(e) => format!("fail:{}", clean(e)),
     });
-    let res = probe_isolation(&client, &format!("{}x{}", seed % 100_000, i)).await;
+    let res = match tokio::time::timeout(Duration::from_millis(12000), probe_isolation(&client, &format!("{}x{}", seed % 100_000, i))).await {
+        Ok(r) => r,
+        Err(_) => Err("no_answer_within_12s".to_string()),
+    };
     let _ = writeln!(out, "iso -> {}", match res {
         Ok(()) => "ok".to_string(),
         Err(e) => format!("fail:{}", clean(e)),
     });
     let _ = writeln!(out, "end");
+    drop(mute);
 }
 
 pub fn main(args: &[String]) {
